@@ -464,7 +464,7 @@ func c11ConnCase(t c11TB, s c11Src, st *vstats.Collector, maxSteps int) (
 	// Final state equals the reference's.
 	for _, dd := range dirs {
 		c := &dd.w.noise.sendCipher
-		if c.secretKey != dd.ref.key || c.salt != dd.ref.ck ||
+		if c11B32(c.secretKey) != dd.ref.key || c11B32(c.salt) != dd.ref.ck ||
 			c.nonce != dd.ref.n {
 
 			t.Fatalf("%s send cipher diverged from the reference", dd.name)
